@@ -604,6 +604,38 @@ def r11(ctx, facts):
         raise AnchorLost("no by-name type_check arms found")
 
 
+def r12(ctx, facts, sers):
+    r = ctx.rule("R12", "by-name row serialization writes a cell for EVERY column the database lists under a field's name (also when the name is listed twice: one value per bind marker)", floor=8)
+    from ..util import dj_of, decided_edges
+    n = 0
+    for name, b in sorted(sers.items()):
+        if FAMILY[name][0] != "row":
+            continue
+        dj = dj_of(b, facts)
+        lits = eq_literals(b)
+        writes = [c.bb for bb, c in b.calls() if bb in b.live_blocks and (c.name or c.decl or "").endswith("serialize_column")]
+        if not writes:
+            raise AnchorLost("%s::serialize_field: no serialize_column call" % name)
+        for f, cql, ty in FAMILY[name][2]:
+            if cql is None:
+                continue
+            arms = [bb for bb, L in lits.items() if L == cql]
+            if not arms:
+                continue
+            n += 1
+            skipped = False
+            for ab in arms:
+                for (u, v) in decided_edges(b, dj, ("call", ab), 1):
+                    reach = dj.feasible_reach_edge(u, v, removed_nodes=writes)
+                    if any(e in reach for e in b.exits):
+                        skipped = True
+            r.instance("every-occurrence-is-written:%s:%s" % (name, cql), not skipped,
+                       "serialize_field can leave the arm of column name %r without calling serialize_column (e.g. the call sits under the `not visited yet` guard): when the statement lists that name twice, "
+                       "the second cell is not written, every later value shifts left and the row is sent short - without an error" % cql, b.span)
+    if n == 0:
+        raise AnchorLost("no by-name row serializer arms found")
+
+
 def switch_edges_(b, sw):
     t = b.term(sw)
     return {int(v): tg for v, tg in t[2]}, t[3]
@@ -616,7 +648,7 @@ def check(ctx):
         sers = r1(ctx, facts)
     except AnchorLost as ex:
         ctx.rule("R1x", "anchors").fail("anchor-lost", str(ex))
-    for fn in ((lambda c, f: r2(c, f, sers)), r3, r4, r5, r6, r7, r8, r9, r10, r11):
+    for fn in ((lambda c, f: r2(c, f, sers)), (lambda c, f: r12(c, f, sers)), r3, r4, r5, r6, r7, r8, r9, r10, r11):
         try:
             fn(ctx, facts)
         except AnchorLost as ex:
